@@ -50,6 +50,15 @@ PROBE_PLSS = [
     ("T154N-R97W Sec 100: NE/4", ""),
     ("T154N-R97W Sec 14: NE/4; W/2 of Sec 3, T155-R97", "segment,parse_qq"),
     ("Sec 5: Lots 1, 1, T7-R9", "parse_qq,e"),
+    # probes whose outcome depends on a mode being OFF by default
+    ("T1S4N-R97W Sec 14: NE/4", ""),               # OCR artefact, no ocr_scrub
+    ("TIS4N-R97W Sec 14: NE/4", "ocr_scrub"),
+    ("T154N-R97W Sec 14: NE", "parse_qq"),         # bare quarter, no clean_qq
+    ("That part of the NE/4 of Sec 14 of T154N-R97W lying north", ""),
+    ("That part of the NE/4 of Sec 14 of T154N-R97W lying north", "sec_within"),
+    ("T154N-R97W Sec 14 NE/4, Sec 15: W/2", "sec_colon_required"),
+    ("T154N-R97W Sec 14: N/2 of Lot 1", "parse_qq"),
+    ("T154N-R97W Sec 14: N/2 of Lot 1", "parse_qq,suppress_lot_divs"),
 ]
 PROBE_TRACT = [
     ("Lots 1 - 3, N/2NE/4", ""), ("NE of Lot 2, NE", "clean_qq"),
@@ -199,10 +208,16 @@ def do_step(op, rng, pytrs, kept, ctx, case):
         kept.append(P(rng.choice(OTHER),
                       config=rng.choice(['', 's,e', 'clean_qq,parse_qq',
                                          'segment', 'n,e,parse_qq',
-                                         'ocr_scrub'])))
+                                         'ocr_scrub', 'sec_within',
+                                         'sec_colon_required',
+                                         'suppress_lot_divs,parse_qq',
+                                         'copy_all', 'qq_depth.1,parse_qq',
+                                         'ocr_scrub,segment,sec_within'])))
     elif op == 'parse-probe-other-cfg':
         txt, cfg = rng.choice(PROBE_PLSS)
-        P(txt, config=rng.choice(['s,e', 'n,e', 's,w,parse_qq', 'copy_all']))
+        P(txt, config=rng.choice(['s,e', 'n,e', 's,w,parse_qq', 'copy_all',
+                                  'ocr_scrub', 'clean_qq,parse_qq',
+                                  'sec_within,segment']))
         desc, _ = rng.choice(PROBE_TRACT)
         T(desc, trs='154n97w14', config=rng.choice(['qq_depth.1', 'clean_qq',
                                                     'suppress_lot_divs']),
@@ -346,6 +361,11 @@ def run_shard(shard, ctx):
                     f"gives {short(repr(y), 220)}", dedup=f"{op}|{i}")
         if step % 25 == 24:
             shadow.compare(case)
+        if ctx.n_violations >= 8:
+            # The verdict is decided; a history that keeps diverging (or
+            # keeps getting slower) need not be walked to its end.
+            ctx.hist['stopped-after-enough-violations'] += 1
+            break
     shadow.compare({'shard': shard, 'step': 'end'})
 
 
